@@ -1391,8 +1391,9 @@ def run(ctx):
 
 def _run(ctx):
     # 1. proofs
-    ctx.audit_tree(["Model/Basis.v", "Props/C04.v"] + [str(p.relative_to(COQ)) for p in sorted((COQ / "Proofs").glob("Basis*.v"))])
+    ctx.audit_tree(["Model/Basis.v", "Props/C04.v", "Props/C04b.v"] + [str(p.relative_to(COQ)) for p in sorted((COQ / "Proofs").glob("Basis*.v"))])
     ctx.prove_static("Props/C04.v", timeout=900)
+    ctx.prove_static("Props/C04b.v", timeout=300)      # fields are paired by NAME (key-order independence)
     translate_and_prove(ctx)
     # 2. cases
     n_total = 960 if ctx.quick else 6400
